@@ -292,6 +292,7 @@ class HomeKitConnection:
         self.connected_host: str | None = None
         self.host_header: str | None = None
         self._pair_verify_failed_hosts: set[str] = set()
+        self._lost_while_connecting = False
 
     @property
     def name(self) -> str:
@@ -600,6 +601,10 @@ class HomeKitConnection:
         if self.closing:
             self.closed = True
         else:
+            if self._connector and not self._connector.done():
+                # The connector is still busy with this very connection; it
+                # has to notice the loss itself once _connect_once returns.
+                self._lost_while_connecting = True
             self._start_connector()
 
     def _get_connect_hosts(self) -> list[str]:
@@ -691,8 +696,17 @@ class HomeKitConnection:
             while not self.closing:
                 self._last_connector_error = None
                 failed_host_count = len(self._pair_verify_failed_hosts)
+                self._lost_while_connecting = False
                 try:
-                    return await self._connect_once()
+                    await self._connect_once()
+                    if not self._lost_while_connecting:
+                        return
+                    # The new connection was lost again while it was still
+                    # being set up (for example while re-subscribing in
+                    # connection_made). _connection_lost could not start a
+                    # new connector because this one was still running, so
+                    # keep trying here.
+                    self._last_connector_error = AccessoryDisconnectedError("Connection lost while it was being set up")
 
                 except AuthenticationError as ex:
                     self._last_connector_error = ex
